@@ -2,6 +2,7 @@ package verifsim
 
 import (
 	"bytes"
+	"context"
 	"errors"
 	"fmt"
 	"io"
@@ -590,6 +591,29 @@ func checkStreams(run *MixRun) {
 				cc, d, s, _ := payloadTag(m)
 				e.Violate(prop, "client-recv-mismatch", site, "call %d: client message #%d is (call=%d dir=%c seq=%d len=%d)", id, i, cc, d, s, len(m))
 				break
+			}
+		}
+		if c.HStatus == nil && c.Timeout == 0 && c.PreDone == 0 && !hasOp(c.CProg, 'x') {
+			// the caller's context lives for the whole run and the handler returned
+			// success: nothing the caller calls on this stream may report a cancellation
+			isCancel := func(err error) bool {
+				if err == nil || err == io.EOF {
+					return false
+				}
+				if errors.Is(err, context.Canceled) {
+					return true
+				}
+				st, ok := status.FromError(err)
+				return ok && st.Code() == codes.Canceled
+			}
+			for _, se := range r.CSendErr {
+				if isCancel(se) {
+					e.Violate(prop, "success-reported-canceled", site+".send", "call %d: handler returned nil and the caller never cancelled, but SendMsg returned %v", id, se)
+					break
+				}
+			}
+			if isCancel(r.CloseErr) {
+				e.Violate(prop, "success-reported-canceled", site+".closesend", "call %d: handler returned nil and the caller never cancelled, but CloseSend returned %v", id, r.CloseErr)
 			}
 		}
 		if r.COverrun {
